@@ -95,6 +95,95 @@ fn u2f_serialize<const S: usize>(r: &ctap_types::ctap1::Response, prior: &[u8]) 
     }
 }
 
+#[cfg(feature = "arbitrary")]
+mod arb {
+    //! C19: the real `Arbitrary` impls on given bytes.  Modelled types report their value and how
+    //! many bytes are left; whole requests report `valid` (also when the bytes ran out) or what is
+    //! wrong with the generated value.
+    use super::{glue, mock, V};
+    use arbitrary::{Arbitrary, Unstructured};
+
+    fn texts_ok(v: &V) -> Result<(), String> {
+        match v {
+            V::Text(b) => core::str::from_utf8(b).map(|_| ()).map_err(|_| format!("invalid-utf8 {}", super::hex(b))),
+            V::List(xs) => xs.iter().try_for_each(texts_ok),
+            V::Record(xs) => xs.iter().flatten().try_for_each(texts_ok),
+            V::Variant(_, x) => texts_ok(x),
+            _ => Ok(()),
+        }
+    }
+
+    macro_rules! typed {
+        ($bytes:expr, $t:ty, $dump:path) => {{
+            let mut u = Unstructured::new($bytes);
+            match <$t as Arbitrary>::arbitrary(&mut u) {
+                Ok(x) => {
+                    let v = $dump(&x);
+                    if let Err(e) = texts_ok(&v) { return e; }
+                    let _ = format!("{:?}", x);
+                    if x.clone() != x { return "clone-differs".into(); }
+                    format!("ok {} {}", v.show(), u.len())
+                }
+                Err(arbitrary::Error::NotEnoughData) => "err".into(),
+                Err(e) => format!("err-{:?}", e),
+            }
+        }};
+    }
+
+    fn ctap2_valid(r: &ctap_types::ctap2::Request) -> Result<(), String> {
+        use ctap_types::ctap2::Authenticator;
+        let (_variant, payload) = glue::dump_request(r);
+        if let Some(v) = &payload { texts_ok(v)?; }
+        let _ = format!("{:?}", r);
+        if &r.clone() != r { return Err("clone-differs".into()); }
+        let mut m = mock::Mock::new(None);
+        let _ = m.call_ctap2(r);
+        Ok(())
+    }
+
+    fn ctap1_valid(r: &ctap_types::ctap1::Request) -> Result<(), String> {
+        use ctap_types::ctap1::Authenticator;
+        let _ = format!("{:?}", r);
+        if &r.clone() != r { return Err("clone-differs".into()); }
+        let mut m = mock::Mock::new(None);
+        let _ = m.call_ctap1(r);
+        Ok(())
+    }
+
+    pub fn case(ty: &str, bytes: &[u8]) -> String {
+        match ty {
+            "webauthn::PublicKeyCredentialRpEntity" =>
+                typed!(bytes, ctap_types::webauthn::PublicKeyCredentialRpEntity, glue::dump_webauthn_PublicKeyCredentialRpEntity),
+            "webauthn::PublicKeyCredentialUserEntity" =>
+                typed!(bytes, ctap_types::webauthn::PublicKeyCredentialUserEntity, glue::dump_webauthn_PublicKeyCredentialUserEntity),
+            "webauthn::FilteredPublicKeyCredentialParameters" =>
+                typed!(bytes, ctap_types::webauthn::FilteredPublicKeyCredentialParameters, glue::dump_webauthn_FilteredPublicKeyCredentialParameters),
+            "ctap2::AttestationFormatsPreference" =>
+                typed!(bytes, ctap_types::ctap2::AttestationFormatsPreference, glue::dump_ctap2_AttestationFormatsPreference),
+            "ctap2::get_assertion::HmacSecretInput" =>
+                typed!(bytes, ctap_types::ctap2::get_assertion::HmacSecretInput, glue::dump_ctap2_get_assertion_HmacSecretInput),
+            "ctap2::Request" | "ctap1::Request" | "authenticator::Request" => {
+                let mut u = Unstructured::new(bytes);
+                let res: Result<Result<(), String>, arbitrary::Error> = match ty {
+                    "ctap2::Request" => ctap_types::ctap2::Request::arbitrary(&mut u).map(|r| ctap2_valid(&r)),
+                    "ctap1::Request" => ctap_types::ctap1::Request::arbitrary(&mut u).map(|r| ctap1_valid(&r)),
+                    _ => ctap_types::authenticator::Request::arbitrary(&mut u).map(|r| match &r {
+                        ctap_types::authenticator::Request::Ctap1(r1) => ctap1_valid(r1),
+                        ctap_types::authenticator::Request::Ctap2(r2) => ctap2_valid(r2),
+                    }.and_then(|_| { let _ = format!("{:?}", r); if r.clone() != r { Err("clone-differs".to_string()) } else { Ok(()) } })),
+                };
+                match res {
+                    Ok(Ok(())) => "valid generated".into(),
+                    Ok(Err(e)) => e,
+                    Err(arbitrary::Error::NotEnoughData) => "valid not-enough-data".into(),
+                    Err(e) => format!("err-{:?}", e),
+                }
+            }
+            _ => "bad-case".into(),
+        }
+    }
+}
+
 fn req_outcome(bytes: &[u8]) -> String {
     let res = ctap_types::ctap2::Request::deserialize(bytes);
     match &res {
@@ -383,6 +472,11 @@ fn handle(line: &str, big: &mut [u8]) -> String {
                 Err(e) => { let sw: u16 = e.into(); format!("err {}", sw) }
             };
             format!("log={} res={}", if m.log.is_empty() { "-".to_string() } else { m.log.join(",") }, r)
+        }
+        #[cfg(feature = "arbitrary")]
+        ["arb", ty, hx] => {
+            let Some(bytes) = unhex(hx) else { return "bad-case".into() };
+            arb::case(ty, &bytes)
         }
         ["tbl", name] => match glue::table(name) {
             Some(t) => t.iter().map(|(n, v)| format!("{}={}", n, v)).collect::<Vec<_>>().join(","),
